@@ -41,19 +41,23 @@ FAMILIES = ("add", "short", "addnode", "copyto", "move", "remove", "set_data")
 CHUNK = 40
 
 
-def load_case(nodes):
-    """nodes: [[parent_idx, label | ref_idx]*] as Tree.save writes them.  Returns (outcome, problem)."""
+def load_case(nodes, typed=False, loaded=None):
+    """nodes: [[parent_idx, label | ref_idx]*] as Tree.save writes them.  Returns (outcome, collides, problem).
+    loaded = (tree | None, outcome) when the caller has already run Tree.load."""
     labels = []
     for pidx, dat in nodes:
         labels.append(labels[dat - 1] if isinstance(dat, int) else dat)
     collide = any(nodes[i][0] == nodes[j][0] and labels[i] == labels[j] for i in range(len(nodes)) for j in range(i))
     text = json.dumps({"meta": {"$generator": "nutree/0.9.1", "$format_version": "1.0"}, "nodes": nodes})
-    try:
-        t = Tree.load(io.StringIO(text))
-        res = [0, []]
-    except Exception as e:
-        t = None
-        res = [1, H.err_class(e)]
+    if loaded is not None:
+        t, res = loaded
+    else:
+        try:
+            t = (H.TypedTree if typed else Tree).load(io.StringIO(text))
+            res = [0, []]
+        except Exception as e:
+            t = None
+            res = [1, H.err_class(e)]
     msg = None
     if collide and res != [1, 1]:
         msg = f"load: the file places two entries with one data_id under one parent, outcome {res} (expected UniqueConstraintError)"
@@ -105,14 +109,14 @@ class Prop:
             "over 1-3 trees (plain/typed, calc_data_id callbacks): 86% of the generator's draws aim at a collision through one of 21 routes "
             "(measured: > 40% of all executed steps, set-up included, would collide), 10% are near misses that must be accepted, the rest "
             "builds material; one history in five is malformed (invalid before, foreign nodes, raising callbacks); (d) hand-made native files for "
-            "Tree.load (implementation + oracle only).  After every step: sibling uniqueness by pointer walk; collision predicate computed from "
+            "Tree.load (part [load]: implementation, oracle and the model's op_load).  After every step: sibling uniqueness by pointer walk; collision predicate computed from "
             "pointers before the step vs. the outcome (refused with UniqueConstraintError / not over-refused); state and outcome equal the "
             "model's.  distinct = distinct (universe, ops); non-trivial = at least one step would collide")
     exhaustive_note = "every add/shortcut/add(node)/copy_to/move/remove/set_data/rename x every argument on all forests <= 3 (thorough 4) nodes x 3 labelings"
     assumptions = ["identity of nodes is the allocation index recorded by a harness-side wrapper of Node.__init__",
                    "user callbacks (calc_data_id) are tables from objects to ids that may raise",
                    "node references of generated ops are live (references to removed nodes are not public operations)",
-                   "Tree.load is exercised on the implementation with the independent oracle only (no load operation in the mutation machine)"]
+                   "Tree.load: the node list after the file layer (json parsing, key/value un-compression) is what the model's op_load reads"]
     trusted = ["harness/mut.py, mut_ex.py, mut_c01.py, mut_c03.py (replayer, observation, collision predicate, generators)"]
     manifest = dict(
         text=("Machine-checked (Coq 8.16, no axioms): sibling uniqueness (no two children of one parent, top level included, with equal "
@@ -136,9 +140,7 @@ class Prop:
         for c in mut.CORPUS:
             yield dict(kind="hist", univ=c["univ"], ops=c["ops"], corpus=c["id"])
         for c in CORPUS_C03:
-            if "nodes" in c:
-                yield dict(kind="load", nodes=c["nodes"], corpus=c["id"])
-            else:
+            if "nodes" not in c:      # the load witnesses run in the part [load] (model included)
                 yield dict(kind="hist", univ=c["univ"], ops=c["ops"], corpus=c["id"])
         quick = tier == "quick"
         nmax = 3 if quick else 4
@@ -164,8 +166,6 @@ class Prop:
             n_ops = rng.randint(10, 30 if quick else 40)
             h = mut_c03.gen_history(rng, n_ops, malformed=(i % 5 == 4))
             yield dict(kind="hist", univ=h["univ"], ops=h["ops"])
-        for i in range(150 if quick else 1500):
-            yield dict(kind="load", nodes=gen_load(rng))
 
     def shrink_candidates(self, desc):
         if desc["kind"] == "alts":
@@ -259,5 +259,8 @@ CORPUS_C03: list = [
     {"id": "C03-load-clone-below-sibling", "nodes": [[0, "a"], [0, "b"], [2, 1]]},
 ]
 
-PROP = Prop()
+import parts  # noqa: E402
+
+LOAD_PART = mut_c03.LoadPart([c for c in CORPUS_C03 if "nodes" in c], gen_load, load_case)
+PROP = parts.attach(Prop(), LOAD_PART)
 CORPUS = mut.CORPUS + CORPUS_C03
